@@ -117,6 +117,7 @@ def t1(ctx, rid):
         key = 'store|%s' % root
         bad = None
         detail = []
+        seen_helpers = set()
         for og in ogs:
             if og.kind == 'agg' and og.data.get('variant') == 'None':
                 continue
@@ -154,8 +155,14 @@ def t1(ctx, rid):
                         for r in ro:
                             if r.kind == 'call' and r.data.name == 'last' and r.data.args:
                                 more += core.origins(g, r.data.args[0])
-                        if any(r.kind == 'call' and r.data.name in ('iter_mut', 'last_mut', 'get_child_mut') and 'HierarchicalFilters' in r.data.path for r in ro + more):
-                            same_list = True
+                        pop_root = core.access_root(g, op_local(c.args[0])) if c.args and op_local(c.args[0]) is not None else None
+                        for r in ro + more:
+                            if r.kind == 'call' and r.data.name in ('iter_mut', 'last_mut', 'get_child_mut') and 'HierarchicalFilters' in r.data.path:
+                                # the very guard the blob is popped through: a list locked, loaded, unlocked and locked again may have
+                                # been dumped (index back on disk) in between
+                                it_root = core.access_root(g, op_local(r.data.args[0])) if r.data.args and op_local(r.data.args[0]) is not None else None
+                                if it_root is not None and it_root == pop_root:
+                                    same_list = True
                     # paths on which the list was empty (None edge of last()) carry no blob
                     none_e = []
                     for x in loads:
@@ -164,10 +171,27 @@ def t1(ctx, rid):
                     if okb and same_list and c.bb not in g.reach_from([0], avoid_enter=okb + empty_list_edges(g)):
                         detail.append('pop after load_index ok on the last element')
                         continue
-                    bad = 'a blob popped from the closed list is installed as active without its index having been loaded (it may be on disk: every later write appends bytes and then fails with "Index is closed")'
+                    bad = 'a blob popped from the closed list is installed as active without its index having been loaded under the same list guard (it may be on disk: every later write appends bytes and then fails with "Index is closed")'
                     break
                 if c.name in ('take', 'replace') and prims.receiver_field(og.fn, c) == 'active_blob':
                     detail.append('previous active blob')
+                    continue
+                # a selection helper of this file that returns the blob (`select_active_blob`): judge what it returns
+                helper = [t for t in tg if t in prog.fns and prog.fns[t].file == og.fn.file and 'Blob<' in prog.fns[t].locals[0]['s']
+                          and t != OPEN_NEW and 'pop_active' not in t]
+                hb = prog.body_of(helper[0]) if len(helper) == 1 else None
+                if hb is not None and ('expanded', hb.id) not in seen_helpers and 'Blob<' in hb.locals[0]['s']:
+                    seen_helpers.add(('expanded', hb.id))
+                    for (xb, xk, xp) in core.exit_defs(hb):
+                        if xb not in hb.reachable() or xk == 'err':
+                            continue    # the error of a `?` is not a blob
+                        if isinstance(xp, dict) and xp.get('k') == 'agg' and xp.get('ops'):
+                            ogs.extend(origins_blob(prog, hb, xp['ops'][0]))
+                        elif isinstance(xp, dict) and xp.get('k') == 'use':
+                            ogs.extend(origins_blob(prog, hb, xp['o']))
+                        elif not isinstance(xp, dict):
+                            ogs.append(core.Origin('call', hb, xb, xp))
+                    detail.append('via %s' % helper[0].rsplit('::', 1)[-1])
                     continue
                 # any other producer: certified when load_index() returned ok on this very value before it is stored
                 g = og.fn
@@ -504,7 +528,7 @@ def t7(ctx, rid):
         root = prog.fns[prog.fns[f.id].root]
         key = 'no-overwrite|%s' % root.id
         n += 1
-        if root.argc >= 1 and root.locals[1]['s'].startswith('&mut storage::core::Storage<'):
+        if core.runs_exclusive(prog, root.id):
             ctx.ok(rid, key, f.where(bb), 'exclusive initialisation (&mut Storage): no client can have put a blob there', nontrivial=False)
             continue
         ok, w = core.dominated_up(prog, f, bb, ev)
@@ -754,6 +778,12 @@ def t15(ctx, rid):
         raise core.AnchorLost('IoDriver::create in FileIndexTrait::from_records impls: %d' % n)
 
 
+def t16(ctx, rid):
+    """C09.P10 instance: a full inner node of the index file fits the block the lookups read"""
+    import props.c09 as c09
+    c09.p10(ctx, rid)
+
+
 RULES = [
     Rule('C04.T1', 'every value stored into the active-blob slot is certified to have an in-memory index (open_new, load_index ok, or popped after load_index ok on the last element)', t1, 7),
     Rule('C04.T2', 'every index push is dominated by an InMemory-establishing event, in the body or in every caller, or acts on the active-blob slot', t2, 3),
@@ -769,5 +799,6 @@ RULES = [
     Rule('C04.T13', 'the filters a closed blob is merged into stay a superset of it; buffers are off-loaded only from on-disk indexes (C10.B9/B6 instances)', t13, 3),
     Rule('C04.T14', 'the active blob is counted as a source of the cross-blob merge; the serializer layer passes agree (C02.U14 / C09.P7 instances)', t14, 3),
     Rule('C04.T15', 'an index file is built into an emptied or absent file (IoDriver::create does not truncate)', t15, 1),
+    Rule('C04.T16', 'a completely filled non-leaf node fits into one block for every key length (C09.P10 instance)', t16, 1),
     Rule('C04.T6', 'the closed-blob vector (child ids are positions) is never shrunk', t6, 4),
 ]
